@@ -95,6 +95,29 @@ theorem nemap_refines_map (c : Int) (ops : List Op) :
     acceptsTrace [] ((NeMap.new c).trace ops) = true :=
   NeMap.trace_accepted (NeMap.sub_new c) ops
 
+/-- `Stats.Combined` (used by `algo.ReachabilityCache.Stats`): the combined size figure of two caches after any
+histories is the number of entries the two caches store, and the combined capacity is the sum of the capacities.
+Being a function of two readings, it cannot disturb either cache — the tie checks that the Go method is such a function
+(repeated readings agree, later cache behaviour is unchanged). -/
+theorem combined_stats_exact (c1 c2 : Int) (ops1 ops2 : List Op) :
+    let a := (Sieve.new c1).run ops1
+    let b := (NeMap.new c2).run ops2
+    (a.stats.combined b.stats).size = (a.queue.length : Int) + b.store.length ∧
+    (b.stats.combined a.stats).size = (a.queue.length : Int) + b.store.length ∧
+    (a.stats.combined b.stats).cap = (a.cap : Int) + b.cap := by
+  have h1 := (sieve_inv c1 ops1).2.2.1
+  have h2 := (nemap_inv c2 ops2).2.2
+  intro a b
+  refine ⟨?_, ?_, rfl⟩
+  · show a.size + b.size = _
+    have : a.size = a.queue.length := h1
+    have : b.size = b.store.length := h2
+    omega
+  · show b.size + a.size = _
+    have : a.size = a.queue.length := h1
+    have : b.size = b.store.length := h2
+    omega
+
 /-- The sequential part of C16 at full strength. -/
 def C16_seq_full : Prop :=
   (∀ (c : Int) (ops : List Op),
